@@ -31,7 +31,7 @@ def points : (s : Shape) → St s → List (List (Nat × TagSet))
   | .etod c, (_, inner) => points c inner
   | .deco c, st => points c st
   | .tagger _ _ c, st => points c st
-  | .ffbox _ _ c, (_, inner) => points c inner
+  | .fsink _ _ _, st => [addsOf st.log]
   | .tfr c, (_, inner) => points c inner
   | .multi cs, (_, inner) => pointsL cs inner
   | .e2s c, (own, inner) => own.sent :: points c inner
